@@ -61,7 +61,7 @@ def main():
                 env = dict(os.environ, VERIF_REPO=wt, VERIF_TIER='quick')
                 r = run(['python3', os.path.join(V, 'vcheck.py'), c], env=env, cwd=V)
                 keys = re.findall(r'VIOLATION property=\S+ replay=\S+ key=(.*?) occurrences=', r.stdout)
-                checks[c] = dict(cmd='VERIF_REPO=<tree with patch> python3 vcheck.py %s --tier quick' % c, exit=r.returncode, caught=r.returncode == 1, violation_keys=keys[:12])
+                checks[c] = dict(cmd='VERIF_REPO=<tree with patch> python3 vcheck.py %s --tier quick' % c, exit=r.returncode, caught=(r.returncode == 1 and bool(keys)), violation_keys=keys[:12])
                 print('%s: check %s exit %d %s' % (name, c, r.returncode, '; '.join(keys[:4])), flush=True)
             rec['checks'] = checks
         rec['confirmed'] = bool(ok)
